@@ -80,6 +80,8 @@ fn voting_thread(
                 tracks,
                 monitor,
             } => {
+                #[cfg(similari_verif)]
+                crate::verif_hooks::sched_point("vote.job.begin", scene_id);
                 let candidates_num = tracks.len();
                 let tracks_num = {
                     let store = store.read().expect("Access to store must always succeed");
@@ -108,6 +110,8 @@ fn voting_thread(
                         let dest = dest[0];
                         if dest == source {
                             t.set_track_id(tid);
+                            #[cfg(similari_verif)]
+                            crate::verif_hooks::sched_point("vote.store_write", scene_id);
                             store
                                 .write()
                                 .expect("Access to store must always succeed")
@@ -115,6 +119,8 @@ fn voting_thread(
                                 .unwrap();
                             tid
                         } else {
+                            #[cfg(similari_verif)]
+                            crate::verif_hooks::sched_point("vote.store_write", scene_id);
                             store
                                 .write()
                                 .expect("Access to store must always succeed")
@@ -124,6 +130,8 @@ fn voting_thread(
                         }
                     } else {
                         t.set_track_id(tid);
+                        #[cfg(similari_verif)]
+                        crate::verif_hooks::sched_point("vote.store_write", scene_id);
                         store
                             .write()
                             .expect("Access to store must always succeed")
@@ -138,10 +146,14 @@ fn voting_thread(
 
                     res.push(SortTrack::from(track))
                 }
+                #[cfg(similari_verif)]
+                crate::verif_hooks::sched_point("vote.result.send", scene_id);
                 let res = channel.send((scene_id, res));
                 if let Err(e) = res {
                     warn!("Unable to send results to a caller, likely the caller already closed the channel. Error is: {:?}", e);
                 }
+                #[cfg(similari_verif)]
+                crate::verif_hooks::sched_point("vote.monitor.dec", scene_id);
                 let (lock, cvar) = &*monitor;
                 let mut lock = lock.lock().unwrap();
                 *lock -= 1;
@@ -230,6 +242,9 @@ impl BatchSort {
             self.auto_waste.counter -= 1;
         }
 
+        #[cfg(similari_verif)]
+        crate::verif_hooks::sched_point("batch.monitor.wait", 0);
+
         if let Some(m) = &self.monitor {
             let (lock, cvar) = &**m;
             let _guard = cvar.wait_while(lock.lock().unwrap(), |v| *v > 0).unwrap();
@@ -286,6 +301,8 @@ impl BatchSort {
                     tracks,
                 })
                 .expect("Sending voting request to voting thread must not fail");
+            #[cfg(similari_verif)]
+            crate::verif_hooks::sched_point("batch.scene.dispatched", *scene_id);
         }
     }
 
